@@ -979,6 +979,30 @@ pub fn c09(c: &mut Ctx) {
         if valid_ref(x.0, x.1) {
             c09_back_all(c, x);
         }
+        // f32 rounding boundaries: midpoints between adjacent f32 values, the overflow threshold just
+        // above f32::MAX, the f32 subnormal range
+        {
+            let fb = match c.rng.below(4) {
+                0 => f32::MAX,
+                1 => f32::from_bits(c.rng.below(1 << 24) as u32 + 1),
+                2 => f32::MIN_POSITIVE,
+                _ => f32::from_bits((c.rng.next() as u32) & 0x7f7f_ffff),
+            };
+            let up = if fb == f32::MAX { pow2(128) } else { f32::from_bits(fb.to_bits() + 1) as f64 };
+            let mid = 0.5 * (fb as f64) + 0.5 * up;
+            let hi = match c.rng.below(4) {
+                0 => mid,
+                1 => step(mid, c.rng.range(-3, 3)),
+                2 => (fb as f64) + (up - fb as f64) * ((c.rng.next() >> 11) as f64 * pow2(-53)),
+                _ => step(fb as f64, c.rng.range(-2, 2)),
+            };
+            let hi = if c.rng.coin() { hi } else { -hi };
+            let (h, l, _) = tf_with_hi(&mut c.rng, hi);
+            if valid_ref(h, l) {
+                c09_back_all(c, (h, l));
+                c.count("f32_boundary_cases");
+            }
+        }
         // float conversions
         let f = f64_any(&mut c.rng);
         let ins = [hx(f)];
